@@ -145,16 +145,20 @@ func (n *simNet) setupPath(p dialPath, o backendOpts) *websocket.Dialer {
 		}
 		return nil
 	}
+	paddr := pu.Host
+	if pu.Port() == "" {
+		paddr += map[string]string{"http": ":80", "https": ":443", "socks5": ":1080"}[pu.Scheme]
+	}
 	switch pu.Scheme {
 	case "http", "https":
 		hp := &netsim.HTTPProxy{Name: "proxy", Reply: o.proxyResp, Log: n.Log, Target: target}
 		if pu.Scheme == "https" {
 			hp.TLS = &tls.Config{Certificates: []tls.Certificate{pki.Leaf(pu.Hostname(), false)}, SessionTicketsDisabled: true}
 		}
-		n.peers[pu.Host] = hp.Serve
+		n.peers[paddr] = hp.Serve
 	case "socks5":
 		s := &netsim.Socks5{Name: "proxy", Log: n.Log, Target: target, Refuse: o.socksRef}
-		n.peers[pu.Host] = s.Serve
+		n.peers[paddr] = s.Serve
 	}
 	// reaching the backend directly is possible on this network - and would be a violation
 	n.peers[backendAddr] = func(c net.Conn) {
